@@ -291,6 +291,9 @@ class DIP:
         # Parse nodes
         while len(queue.nodes):
             node = queue.nodes.pop()
+            # A line indented no deeper than a case keyword ends that case
+            if node.keyword not in ['case','empty']:
+                target.branching.close_ended(node)
             # Perform specific node parsing only outside of case or inside of valid case
             if not target.branching.false_case() or node.keyword=='case':
                 node.inject_value(target)
